@@ -720,6 +720,13 @@ def install_env_stubs(eng):
             alt = "%s__lib%d" % (name, (h.as_long() - 0x7E0000000000) // 0x100)
             if alt in e.m.funcs:
                 return [(st, BV(e.faddr[alt], 64))]
+            # a name that only the application itself (the global scope: RTLD_DEFAULT / RTLD_NEXT pseudo-handles)
+            # provides is defined as <name>__app; no opened library exports it
+            app = name + "__app"
+            if app in e.m.funcs:
+                if h.as_long() in (0, 0xFFFFFFFFFFFFFFFF):
+                    return [(st, BV(e.faddr[app], 64))]
+                return [(st, BV(0, 64))]
         if name in e.m.funcs:
             return [(st, BV(e.faddr[name], 64))]
         return [(st, BV(0, 64))]
